@@ -3,6 +3,8 @@ from __future__ import annotations
 
 import z3
 
+from pyvc import seqs as Q
+
 from .core import CLASSES, CONSTS, NONE, Spec, Sym, V, typeof, unI, unB, unS, truthy
 from .values import fld
 
@@ -37,9 +39,9 @@ class Concretizer:
         return z3.is_true(self.ev(t))
 
     def seq_(self, t, espec: Spec, depth):
-        n = self.int_(z3.Length(t))
+        n = self.int_(Q.Length(t))
         n = max(0, min(n, 12))
-        return [self.val_(self.ev(t[i]), espec, depth) for i in range(n)]
+        return [self.val_(self.ev(Q.At(t, i)), espec, depth) for i in range(n)]
 
     def sym(self, s: Sym, depth=3):
         if s.kind == "int":
@@ -53,10 +55,10 @@ class Concretizer:
             return self.val_(self.ev(s.t), s.spec or Spec("val"), depth)
         if s.kind == "dict":
             keys = self.seq_(s.py.keys, s.py.kspec, depth)
-            n = min(self.int_(z3.Length(s.py.keys)), 12)
+            n = min(self.int_(Q.Length(s.py.keys)), 12)
             out = []
             for i in range(max(0, n)):
-                kt = self.ev(s.py.keys[i])
+                kt = self.ev(Q.At(s.py.keys, i))
                 out.append([self.val_(kt, s.py.kspec, depth), self.val_(self.ev(z3.Select(s.py.vals, kt)), s.py.vspec, depth)])
             return {"$dict": out}
         return {"$unsupported": s.kind}
